@@ -372,9 +372,13 @@ def env_variants(host, quick):
         ("cgo0", {"CGO_ENABLED": "0"}),
         ("cgo0-foreign", {"CGO_ENABLED": "0", "GOOS": "plan9", "GOARCH": "386"}),
         ("cgo1-foreign", {"CGO_ENABLED": "1", "GOOS": "android", "GOARCH": "arm64"}),
+        # GOFLAGS of a CI job: tags named there are not part of "with / without the mage tag" (go/build does not read GOFLAGS)
+        ("goflags-tags", {"GOFLAGS": "-mod=mod -tags=integration"}),
+        ("goflags-tags2", {"GOFLAGS": "-tags=integration,tools,foo", "GOOS": "darwin"}),
     ]
     if not quick:
-        v += [("goarch-only", {"GOARCH": "wasm"}), ("cgo1", {"CGO_ENABLED": "1"}), ("cgo-junk", {"CGO_ENABLED": "yes", "GOOS": "ios"}),
+        v += [("goflags-old-form", {"GOFLAGS": "-tags=integration bar"}), ("goflags-mod", {"GOFLAGS": "-mod=mod"}), ("goflags-mage", {"GOFLAGS": "-tags=mage"}),
+              ("goarch-only", {"GOARCH": "wasm"}), ("cgo1", {"CGO_ENABLED": "1"}), ("cgo-junk", {"CGO_ENABLED": "yes", "GOOS": "ios"}),
               ("foreign2", {"GOOS": "illumos", "GOARCH": "amd64"})]
     return v
 
@@ -755,6 +759,26 @@ exec go "$@"
                 continue
             jobs.append({"kind": "attrs", "top": top, "sub": sub, "attrs": attrs, "env": envs[n % len(envs)], "plat": host, "flags": ("", ""),
                          "history": hist3 + ([cstep] if n % 3 == 0 else []), "gocmd": n % 2 == 0, "goplan": ""})
+        # SEQUENCES of -compile with one cache on magefiles whose selection is the same for every platform: p1, p2, p3, p1 ..., same and
+        # different output paths, hash mode or not, -f or not: every delivered file must be for the platform named on THAT command line
+        Y = "arm64" if host[1] != "arm64" else "amd64"
+        L = "linux"
+        for n in range(2 if ctx.quick else 6):
+            hf = HF0 if n % 2 == 0 else {}
+            top = D([e2e_file("magefile.go", M, "Build"), e2e_file("more.go", rng.choice([M, ("or", M, ("tag", "never"))]) if n % 3 else M, "More"), e2e_file("lib.go", None, "Leaked")])
+            plats = [("", ""), (X, host[1]), (L, Y), ("", ""), (X, ""), ("", Y), (X, host[1])]
+            hist = []
+            for k, fl in enumerate(plats):
+                hist.append({"name": "compile-%d-%s-%s" % (k + 1, fl[0] or "host", fl[1] or "host"), "what": "compile", "cflags": list(fl), "env": hf,
+                             "out": "out.bin" if k != 4 else "other.bin", "flags": ["-f"] if (k == 5 and n % 2) else []})
+            jobs.append({"kind": "cseq", "top": top, "sub": None, "env": envs[n % len(envs)], "plat": host, "flags": ("", ""), "history": hist, "gocmd": n % 2 == 1, "goplan": ""})
+        # GOFLAGS with -tags in the caller's environment (a CI job): files constrained on such a tag
+        T = ("tag", "integration")
+        for n, gf in enumerate(["-mod=mod -tags=integration", "-mod=mod -tags=integration,tools"] + ([] if ctx.quick else ["-tags=integration -mod=mod", "-mod=mod"])):
+            top = D([e2e_file("magefile.go", M, "Build"), e2e_file("t.go", T, "Tonly"), e2e_file("mt.go", ("and", M, T), "Magetag"), e2e_file("mnt.go", ("and", M, ("not", T)), "Magenottag"),
+                     e2e_file("nt.go", ("not", T), "Nottag"), e2e_file("mot.go", ("or", M, T), "Mageortag")])
+            jobs.append({"kind": "goflags", "top": top, "sub": None if n % 2 == 0 else D([e2e_file("targets.go", T, "Sub")]), "env": dict(envs[n % 2], GOFLAGS=gf), "plat": host, "flags": ("", ""),
+                         "history": hist3 + [cstep], "gocmd": True, "goplan": ""})
         # platform NAMES: architectures whose names are prefixes of one another, with files that tell them apart; odd spellings
         L = host[0] if host[0] == "linux" else "linux"
         pairs = [("arm", "arm64"), ("ppc64", "ppc64le"), ("mips64", "mips64le"), ("mips", "mips64")]
@@ -932,8 +956,8 @@ exec go "$@"
                 # holds main.<Target> of every file used (the targets are //go:noinline and reachable from the generated main)
                 cflags = tuple(st.get("cflags") or j["flags"])
                 plat = forced_platform(host, *cflags)
-                out = os.path.join(proj, "out.bin")
-                args = ["-compile", out] + (["-goos", cflags[0]] if cflags[0] else []) + (["-goarch", cflags[1]] if cflags[1] else [])
+                out = os.path.join(proj, st.get("out", "out.bin"))
+                args = st.get("flags", []) + ["-compile", out] + (["-goos", cflags[0]] if cflags[0] else []) + (["-goarch", cflags[1]] if cflags[1] else [])
                 r = mage(proj, cache, args, env, timeout=600, j=j, log=golog())
                 blob = open(out, "rb").read() if os.path.exists(out) else b""
                 def compiled(d):
